@@ -338,6 +338,7 @@ func PSyncContinue(c *core.Ctx, rule string) {
 	// definitions of the sent variable: the parameter, and +1 steps
 	var incs []ast.Node
 	okDefs := off == inOff
+	helperDef := false
 	for _, o := range Origins(info, fn.Decl, offID) {
 		switch {
 		case o.Zero:
@@ -362,12 +363,33 @@ func PSyncContinue(c *core.Ctx, rule string) {
 					continue
 				}
 			}
+			// `offset = helper(inOffset)`: the helper computes "offset+1 unless -1"
+			if hc, isCall := ast.Unparen(o.Expr).(*ast.CallExpr); isCall && len(hc.Args) == 1 && IsObj(info, inOff)(hc.Args[0]) {
+				if h := HelperOf(c.Program, info, fn.Decl, hc, fn.Pkg.PkgPath); h != nil {
+					if psyncHelper(c, rule, h, cmd) {
+						helperDef = true
+						continue
+					}
+					return
+				}
+			}
 			c.Undecidedf(rule, "SendPSyncContinue/offset+1", fn.Decl.Pos(), "unexpected definition `%s` of the PSYNC offset", c.Src(o.Expr))
 			return
 		}
 	}
+	if helperDef && len(incs) == 0 {
+		// the helper form was judged as a whole; the sent variable has no other definition
+		okDefs = true
+	} else if helperDef {
+		c.Undecidedf(rule, "SendPSyncContinue/offset+1", cmd.Pos(), "the PSYNC offset is computed by a helper and incremented again")
+		return
+	}
 	if !okDefs {
 		c.Failf(rule, "SendPSyncContinue/offset+1", cmd.Pos(), "the offset sent with PSYNC does not derive from the caller's offset parameter")
+		return
+	}
+	if helperDef {
+		continueReturn(c, rule, fn, g, info, isOff, off, inOff)
 		return
 	}
 	isInc := func(n ast.Node) bool {
@@ -395,6 +417,11 @@ func PSyncContinue(c *core.Ctx, rule string) {
 		w2 := g.Path(cfgq.Query{From: ip, After: true, Target: isInc})
 		c.Check(rule, fmt.Sprintf("SendPSyncContinue/once#%d", i+1), inc.Pos(), w2 == nil, "the offset is incremented at most once: +2 skips a byte of the stream", w2...)
 	}
+	continueReturn(c, rule, fn, g, info, isOff, off, inOff)
+}
+
+// continueReturn: the +CONTINUE arm returns (runid, sent offset - 1, nil, nil).
+func continueReturn(c *core.Ctx, rule string, fn *core.Fn, g *cfgq.Graph, info *types.Info, isOff func(ast.Expr) bool, off, inOff types.Object) {
 	// the +CONTINUE return: (runid, off-1, nil, nil)
 	n := 0
 	for _, pt := range g.Points(func(n ast.Node) bool { _, ok := n.(*ast.ReturnStmt); return ok }) {
@@ -418,6 +445,113 @@ func PSyncContinue(c *core.Ctx, rule string) {
 	}
 	if n == 0 {
 		c.Undecidedf(rule, "SendPSyncContinue/continue-returns-received", fn.Decl.Pos(), "no `return runid, offset-1, nil, nil` arm found")
+	}
+}
+
+// psyncHelper judges a helper `f(last) int64` used as the PSYNC offset: every
+// return is `last+1` reached only when last != -1, or `last` (or -1) reached
+// only when last == -1. It reports the obligations and returns false when it
+// already recorded a failure or an undecided shape.
+func psyncHelper(c *core.Ctx, rule string, h *Helper, cmd *ast.CallExpr) bool {
+	info := h.Info
+	var param types.Object
+	np := 0
+	for _, f := range h.Type.Params.List {
+		for _, nm := range f.Names {
+			param = info.Defs[nm]
+			np++
+		}
+	}
+	if np != 1 || param == nil {
+		c.Undecidedf(rule, "SendPSyncContinue/offset+1", cmd.Pos(), "the helper computing the PSYNC offset does not have one parameter")
+		return false
+	}
+	g := h.Graph(c.Program)
+	fl := NewFlow(g)
+	isP := IsObj(info, param)
+	minus1 := func(e ast.Expr) bool { v, ok := core.IntConst(info, e); return ok && v == -1 }
+	isM1 := func(ft cfgq.Fact) bool { eq, ok := EqFact(ft, isP, minus1); return ok && eq }
+	notM1 := func(ft cfgq.Fact) bool { eq, ok := EqFact(ft, isP, minus1); return ok && !eq }
+	// the parameter is not modified
+	mod := false
+	core.InspectAll(h.Body, func(n ast.Node) bool {
+		switch x := n.(type) {
+		case *ast.AssignStmt:
+			for _, l := range x.Lhs {
+				mod = mod || isP(l)
+			}
+		case *ast.IncDecStmt:
+			mod = mod || isP(x.X)
+		}
+		return true
+	})
+	rets := g.Points(func(n ast.Node) bool { _, ok := n.(*ast.ReturnStmt); return ok })
+	if mod || len(rets) == 0 {
+		c.Undecidedf(rule, "SendPSyncContinue/offset+1", cmd.Pos(), "the helper computing the PSYNC offset modifies its parameter or has no return")
+		return false
+	}
+	incs := 0
+	for i, rp := range rets {
+		ret := rp.Node().(*ast.ReturnStmt)
+		if len(ret.Results) != 1 {
+			c.Undecidedf(rule, "SendPSyncContinue/offset+1", ret.Pos(), "unexpected return of the helper computing the PSYNC offset")
+			return false
+		}
+		// k such that the result is param + k (or the constant -1)
+		r := stripConvs(info, ret.Results[0])
+		k, known, isConstM1 := int64(0), false, minus1(r)
+		if isP(r) {
+			k, known = 0, true
+		} else if be, ok := r.(*ast.BinaryExpr); ok && be.Op == token.ADD {
+			if v, isC := core.IntConst(info, be.Y); isC && isP(stripConvs(info, be.X)) {
+				k, known = v, true
+			} else if v, isC := core.IntConst(info, be.X); isC && isP(stripConvs(info, be.Y)) {
+				k, known = v, true
+			}
+		}
+		tn := rp.Node()
+		to := func(n ast.Node) bool { return n == tn }
+		switch {
+		case known && k == 1:
+			incs++
+			w := g.Path(cfgq.Query{From: g.Entry(), AvoidEdge: fl.Edge(notM1), Target: to})
+			c.Check(rule, fmt.Sprintf("SendPSyncContinue/keep-minus-one#%d", incs), ret.Pos(), w == nil,
+				"the +1 must be skipped for offset -1 (PSYNC ? -1 asks for a full resync; 0 would be a real offset)", w...)
+			c.Okf(rule, fmt.Sprintf("SendPSyncContinue/once#%d", incs), ret.Pos(), "the offset is incremented once")
+		case known && k == 0 || isConstM1:
+			w := g.Path(cfgq.Query{From: g.Entry(), AvoidEdge: fl.Edge(isM1), Target: to})
+			if w != nil {
+				c.Check(rule, "SendPSyncContinue/offset+1", ret.Pos(), false,
+					"unless the offset is -1, PSYNC must ask for offset+1 (the first byte not yet received): asking for `offset` itself makes the source resend the last byte, which the parser then sees twice / mid-command", w...)
+				return false
+			}
+		case known:
+			c.Failf(rule, "SendPSyncContinue/offset+1", ret.Pos(), "`%s`: the PSYNC offset must be the last received offset plus exactly 1", c.Src(ret))
+			return false
+		default:
+			c.Undecidedf(rule, "SendPSyncContinue/offset+1", ret.Pos(), "return #%d of the helper computing the PSYNC offset is not `last`, `last+1` or -1", i+1)
+			return false
+		}
+	}
+	if incs == 0 {
+		c.Failf(rule, "SendPSyncContinue/offset+1", cmd.Pos(), "unless the offset is -1, PSYNC must ask for offset+1: the helper never adds 1")
+		return false
+	}
+	c.Okf(rule, "SendPSyncContinue/offset+1", cmd.Pos(), "PSYNC asks for offset+1 unless the offset is -1 (computed by a helper)")
+	return true
+}
+
+func stripConvs(info *types.Info, e ast.Expr) ast.Expr {
+	for {
+		e = ast.Unparen(e)
+		call, ok := e.(*ast.CallExpr)
+		if !ok || len(call.Args) != 1 {
+			return e
+		}
+		if tv, ok := info.Types[call.Fun]; !ok || !tv.IsType() {
+			return e
+		}
+		e = call.Args[0]
 	}
 }
 
